@@ -643,32 +643,53 @@ theorem init_sealed (C rng m p) : SealedOk rng (init C rng m p).ctx := by
   have h0 : SealedOk rng ({} : Ctx) := ⟨(fun e he => by cases he), List.Pairwise.nil⟩
   exact sealedOk_same (provision_same C rng {} m p) h0
 
+/-- The random stream does not repeat among its first `n` draws.  (`Function.Injective rng` would be an unsatisfiable
+    hypothesis: there are only 2^96 nonces.) -/
+def InjBelow (rng : Nat → Nonce) (n : Nat) : Prop := ∀ i j, i < n → j < n → rng i = rng j → i = j
+
+theorem sealed_pairwise {rng x} (h : SealedOk rng x) (hinj : InjBelow rng x.ctr) :
+    x.sealed.Pairwise (fun a b => rng a.1 ≠ rng b.1) := by
+  obtain ⟨h1, h2⟩ := h
+  rw [List.pairwise_map] at h2
+  have h3 := List.Pairwise.and_mem.mp h2
+  refine h3.imp ?_
+  intro a b ⟨ha, hb, hab⟩ heq
+  have := hinj a.1 b.1 (h1 a ha).1 (h1 b hb).1 heq
+  exact Nat.lt_irrefl _ (this ▸ hab)
+
 theorem value_nonces_fresh (C : Crypto) (rng : Nat → Nonce) (like : Bytes → Bytes → Bool) (m : Method) (p : String)
-    (ops : List Op) (hinj : Function.Injective rng) :
+    (ops : List Op) (hinj : InjBelow rng (run C rng like (init C rng m p) ops).1.ctx.ctr) :
     (valueNonces rng (run C rng like (init C rng m p) ops).1).Nodup := by
   have h := run_sealed (C := C) (like := like) ops _ (init_sealed C rng m p)
   unfold valueNonces valueNonceIxs
-  exact List.Pairwise.map rng (fun a b hab hr => Nat.lt_irrefl _ (hinj hr ▸ hab)) h.2
+  rw [List.map_map, List.Nodup, List.pairwise_map]
+  exact sealed_pairwise h hinj
 
 theorem sealed_values_nodup (C : Crypto) (rng : Nat → Nonce) (like : Bytes → Bytes → Bool) (m : Method) (p : String)
-    (ops : List Op) (hinj : Function.Injective rng) :
+    (ops : List Op) (hinj : InjBelow rng (run C rng like (init C rng m p) ops).1.ctx.ctr) :
     (sealedValues (run C rng like (init C rng m p) ops).1).Nodup := by
   have h := run_sealed (C := C) (like := like) ops _ (init_sealed C rng m p)
   unfold sealedValues
-  generalize (run C rng like (init C rng m p) ops).1.ctx = x at h
-  obtain ⟨h1, h2⟩ := h
-  rw [List.pairwise_map] at h2
+  generalize (run C rng like (init C rng m p) ops).1.ctx = x at h hinj
   rw [List.Nodup, List.pairwise_map]
-  have h3 : x.sealed.Pairwise (fun a b => a ∈ x.sealed ∧ b ∈ x.sealed ∧ a.1 < b.1) := by
-    have := List.Pairwise.and_mem.mp h2
-    exact this.imp (fun ⟨ha, hb, hab⟩ => ⟨ha, hb, hab⟩)
+  have h3 := List.Pairwise.and_mem.mp (sealed_pairwise h hinj)
   refine h3.imp ?_
   intro a b ⟨ha, hb, hab⟩ heq
-  have e1 := (h1 a ha).2
-  have e2 := (h1 b hb).2
+  have e1 := (h.1 a ha).2
+  have e2 := (h.1 b hb).2
   rw [heq] at e1
-  have : rng a.1 = rng b.1 := Subtype.ext (e1.symm.trans e2)
-  exact Nat.lt_irrefl _ (hinj this ▸ hab)
+  exact hab (Subtype.ext (e1.symm.trans e2))
+
+/-- every stored value is one of the logged encryptions -/
+def ValuesLogged (st : St) : Prop := ∀ s ∈ stores st, ∀ it ∈ s.db.items, it.value ∈ st.ctx.sealed.map (·.2)
+
+theorem toyNonce_injBelow : InjBelow toyNonce 256 := by
+  intro i j hi hj h
+  have h0 : (toyNonce i).val.head? = (toyNonce j).val.head? := by rw [h]
+  simp only [toyNonce, List.range_succ_eq_map, List.map_cons, List.head?_cons, Option.some.injEq] at h0
+  have := congrArg UInt8.toNat h0
+  simp only [UInt8.toNat_ofNat'] at this
+  omega
 
 /-! #### stored columns -/
 
@@ -904,6 +925,244 @@ theorem stored_record_columns_are_ciphertexts (C : Crypto) (rng : Nat → Nonce)
     (p : String) (ops : List Op) :
     ∀ s ∈ stores (run C rng like (init C rng m p) ops).1, RowsOk s.db :=
   run_rows ops _ (init_rows C rng m p)
+
+/-! #### the `profiles` table -/
+
+/-- same `profiles` rows, same store key -/
+def PSame (s s' : PStore) : Prop := s'.db.profiles = s.db.profiles ∧ s'.storeKey = s.storeKey
+
+theorem profilesOk_same {s s'} (h : PSame s s') (hs : ProfilesOk s) : ProfilesOk s' := by
+  intro p hp; rw [h.1] at hp; rw [h.2]; exact hs p hp
+
+theorem psame_trans {a b c} (h1 : PSame a b) (h2 : PSame b c) : PSame a c := ⟨h2.1.trans h1.1, h2.2.trans h1.2⟩
+
+@[simp] theorem sqlInsertItem_profiles (db pid kind c n v g) : (sqlInsertItem db pid kind c n v g).1.profiles = db.profiles := by
+  unfold sqlInsertItem; split <;> rfl
+@[simp] theorem sqlUpdateItem_profiles (db pid kind c n v g) : (sqlUpdateItem db pid kind c n v g).1.profiles = db.profiles := by
+  unfold sqlUpdateItem; split <;> rfl
+@[simp] theorem sqlDeleteTags_profiles (db id) : (sqlDeleteTags db id).1.profiles = db.profiles := rfl
+@[simp] theorem insertTags_profiles (id) : ∀ (l : List (Arg × Arg × Bool)) (db : PDb), (insertTags db id l).1.profiles = db.profiles
+  | [], db => rfl
+  | (n, v, p) :: ts, db => by simp only [insertTags]; rw [insertTags_profiles id ts]; rfl
+@[simp] theorem sqlDeleteItem_profiles (db pid kind c n) : (sqlDeleteItem db pid kind c n).1.profiles = db.profiles := rfl
+@[simp] theorem sqlDeleteAll_profiles (like db pid kind c f) : (sqlDeleteAll like db pid kind c f).1.profiles = db.profiles := rfl
+
+theorem resolveP_psame (s x p) : PSame s (resolveP s x p).1 := by
+  unfold resolveP; split
+  · exact ⟨rfl, rfl⟩
+  · simp only; split <;> exact ⟨rfl, rfl⟩
+
+theorem update_psame (C rng s x p kind ins cat name value tags) : PSame s (update C rng s x p kind ins cat name value tags).1 := by
+  unfold update
+  have hr := resolveP_psame s x p
+  split
+  · rename_i s' x' e heq; rw [heq] at hr; exact hr
+  · rename_i s' x' pid k heq
+    rw [heq] at hr
+    simp only
+    split
+    · split
+      · exact hr
+      · exact psame_trans hr ⟨by simp, rfl⟩
+    · split
+      · exact hr
+      · exact psame_trans hr ⟨by simp, rfl⟩
+
+theorem remove_psame (C s x p kind cat name) : PSame s (remove C s x p kind cat name).1 := by
+  unfold remove
+  have hr := resolveP_psame s x p
+  split
+  · rename_i s' x' e heq; rw [heq] at hr; exact hr
+  · rename_i s' x' pid k heq
+    rw [heq] at hr
+    simp only
+    split
+    · exact hr
+    · exact psame_trans hr ⟨by simp, rfl⟩
+
+theorem removeAll_psame (C like s x p kind cat f) : PSame s (removeAll C like s x p kind cat f).1 := by
+  unfold removeAll
+  have hr := resolveP_psame s x p
+  split
+  · rename_i s' x' e heq; rw [heq] at hr; exact hr
+  · rename_i s' x' pid k heq
+    rw [heq] at hr
+    exact psame_trans hr ⟨by simp, rfl⟩
+
+theorem wrap_prov (C : Crypto) (sk r k) : (C.wrap sk r (Src.profileKey C k)).prov = keyProv sk := by
+  cases sk <;> rfl
+
+theorem createProfile_profiles {C rng s x name} (h : ProfilesOk s) : ProfilesOk (createProfile C rng s x name).1 := by
+  unfold createProfile
+  simp only
+  split
+  · exact h
+  · rename_i id heq
+    intro p hp
+    simp only [sqlInsertProfile] at hp heq
+    split at hp
+    · exact h p hp
+    · simp only [List.mem_append, List.mem_singleton] at hp
+      rcases hp with hp | rfl
+      · exact h p hp
+      · exact ⟨rfl, by simp only [wrapProfileKey]; exact wrap_prov ..⟩
+
+theorem removeProfile_profiles {s x name} (h : ProfilesOk s) : ProfilesOk (removeProfile s x name).1 := by
+  intro p hp
+  simp only [removeProfile, sqlDeleteProfile, cascadeTags] at hp
+  exact h p (List.mem_filter.mp hp).1
+
+/-- the loop of `rekey`: rows whose id was visited carry a key wrapped under the new store key, names are untouched -/
+theorem rewrapAll_profiles (C rng sk) : ∀ (ps : List PProfile) (db : PDb) (x : Ctx) (P : PProfile → Prop),
+    (∀ p ∈ db.profiles, p.name.prov = .profileName ∧ (P p ∨ p.key.prov = keyProv sk)) →
+    (∀ p q : PProfile, q.id = p.id → q.name = p.name → P p → P q) →
+    ∀ p ∈ (rewrapAll C rng sk ps db x).1.profiles,
+      p.name.prov = .profileName ∧ ((P p ∧ ¬ p.id ∈ ps.map (·.id)) ∨ p.key.prov = keyProv sk)
+  | [], db, x, P, h, _ => by
+    intro p hp
+    simp only [rewrapAll] at hp
+    rcases h p hp with ⟨h1, h2 | h2⟩
+    · exact ⟨h1, .inl ⟨h2, by simp⟩⟩
+    · exact ⟨h1, .inr h2⟩
+  | q :: ps, db, x, P, h, hP => by
+    intro p hp
+    simp only [rewrapAll] at hp
+    have ih := rewrapAll_profiles C rng sk ps (sqlUpdateProfileKey db (wrapProfileKey C rng sk x q.keyId).1 q.id).1
+      ((wrapProfileKey C rng sk x q.keyId).2.bind (sqlUpdateProfileKey db (wrapProfileKey C rng sk x q.keyId).1 q.id).2)
+      (fun p => P p ∧ p.id ≠ q.id) ?_ ?_ p hp
+    · rcases ih with ⟨h1, ⟨⟨hPp, hne⟩, hnot⟩ | h2⟩
+      · exact ⟨h1, .inl ⟨hPp, by simp only [List.map_cons, List.mem_cons, not_or]; exact ⟨hne, hnot⟩⟩⟩
+      · exact ⟨h1, .inr h2⟩
+    · intro p' hp'
+      simp only [sqlUpdateProfileKey, List.mem_map] at hp'
+      obtain ⟨p0, hp0, rfl⟩ := hp'
+      have := h p0 hp0
+      split
+      · rename_i hid
+        exact ⟨this.1, .inr (by simp only [wrapProfileKey]; exact wrap_prov ..)⟩
+      · rename_i hid
+        rcases this with ⟨h1, h2 | h2⟩
+        · exact ⟨h1, .inl ⟨h2, by simpa using hid⟩⟩
+        · exact ⟨h1, .inr h2⟩
+    · intro a b hid hname ⟨hPa, hne⟩
+      exact ⟨hP a b hid hname hPa, by rw [hid]; exact hne⟩
+
+theorem rekey_profiles {C rng s x m} (h : ProfilesOk s) : ProfilesOk (rekey C rng s x m).1 := by
+  intro p hp
+  simp only [rekey, setConfig] at hp ⊢
+  have := rewrapAll_profiles C rng (newStoreKey m x).1 s.db.profiles s.db (newStoreKey m x).2 (fun p => p.id ∈ s.db.profiles.map (·.id))
+    (fun p hp => ⟨(h p hp).1, .inl (List.mem_map.mpr ⟨p, hp, rfl⟩)⟩) (fun a b hid _ ha => by rw [hid]; exact ha) p hp
+  rcases this with ⟨h1, ⟨hin, hnot⟩ | h2⟩
+  · exact absurd hin hnot
+  · exact ⟨h1, h2⟩
+
+theorem provision_profiles (C rng x m p) : ProfilesOk (provision C rng x m p).1 := by
+  intro q hq
+  simp only [provision, List.mem_singleton] at hq ⊢
+  subst hq
+  exact ⟨rfl, by simp only [wrapProfileKey]; exact wrap_prov ..⟩
+
+theorem select_psame (C like s x p kind cat f) : PSame s (select C like s x p kind cat f).1 := by
+  unfold select
+  have hr := resolveP_psame s x p
+  split
+  · rename_i s' x' e heq; rw [heq] at hr; exact hr
+  · rename_i s' x' pid k heq; rw [heq] at hr; exact hr
+
+theorem fetch_psame (C s x p kind cat name) : PSame s (fetch C s x p kind cat name).1 := by
+  unfold fetch
+  have hr := resolveP_psame s x p
+  split
+  · rename_i s' x' e heq; rw [heq] at hr; exact hr
+  · rename_i s' x' pid k heq; rw [heq] at hr; exact hr
+
+theorem reopen_psame (s x) : PSame s (reopen s x).1 := by
+  unfold reopen; simp only; split <;> exact ⟨rfl, rfl⟩
+
+theorem importRows_psame {C rng profile} :
+    ∀ (es : List Entry) (t : PStore) (x : Ctx), PSame t (importRows C rng profile es t x).1
+  | [], t, x => by simp only [importRows]; exact ⟨rfl, rfl⟩
+  | e :: es, t, x => by
+    simp only [importRows]
+    have hu := update_psame C rng t x profile e.kind true e.cat e.name e.value (some e.tags)
+    split
+    · rename_i t' x' err heq; rw [heq] at hu; exact hu
+    · rename_i t' x' heq; rw [heq] at hu
+      exact psame_trans hu (importRows_psame (C := C) (rng := rng) (profile := profile) es t' x')
+
+theorem copyProfiles_profiles {C rng like} :
+    ∀ (ps : List PProfile) (src t : PStore) (x : Ctx), ProfilesOk src → ProfilesOk t →
+      ProfilesOk (copyProfiles C rng like ps src t x).1 ∧ ProfilesOk (copyProfiles C rng like ps src t x).2.1
+  | [], src, t, x, h, ht => by simpa [copyProfiles] using ⟨h, ht⟩
+  | p :: ps, src, t, x, h, ht => by
+    simp only [copyProfiles]
+    generalize hpn : (String.fromUTF8? (ByteArray.mk p.name.bytes.toArray)).getD "" = pname
+    have hs := select_psame C like src x pname none none none
+    split
+    · rename_i src' x' e heq; rw [heq] at hs; exact ⟨profilesOk_same hs h, ht⟩
+    · rename_i src' x' k rows heq
+      rw [heq] at hs
+      have hsrc' : ProfilesOk src' := profilesOk_same hs h
+      split
+      · exact ⟨hsrc', ht⟩
+      · have hc := @createProfile_profiles C rng t x' pname ht
+        have hs2 := select_psame C like (createProfile C rng t x' pname).1 (createProfile C rng t x' pname).2.1 pname none none none
+        split
+        · rename_i t' x'' e heq2; rw [heq2] at hs2; exact ⟨hsrc', profilesOk_same hs2 hc⟩
+        · rename_i t' x'' k2 existing heq2
+          rw [heq2] at hs2
+          have ht' : ProfilesOk t' := profilesOk_same hs2 hc
+          split
+          · exact ⟨hsrc', ht'⟩
+          · have hi := @importRows_psame C rng pname (rows.map (·.plain)) t' x''
+            split
+            · rename_i t'' x3 e heq3; rw [heq3] at hi; exact ⟨hsrc', profilesOk_same hi ht'⟩
+            · rename_i t'' x3 heq3
+              rw [heq3] at hi
+              exact copyProfiles_profiles (C := C) (rng := rng) (like := like) ps src' t'' x3 hsrc' (profilesOk_same hi ht')
+
+def StProfiles (st : St) : Prop := ∀ s ∈ stores st, ProfilesOk s
+
+theorem stProfiles_mk {st : St} (hm : ProfilesOk st.main) (hc : ∀ c, st.copy = some c → ProfilesOk c) : StProfiles st := by
+  intro s hs
+  simp only [stores, List.mem_cons, Option.mem_toList] at hs
+  rcases hs with rfl | hs
+  · exact hm
+  · exact hc s hs
+
+theorem step_profiles {C rng like st} (op : Op) (h : StProfiles st) : StProfiles (step C rng like st op).1 := by
+  have hm : ProfilesOk st.main := h _ (by simp [stores])
+  have hc : ∀ c, st.copy = some c → ProfilesOk c := fun c hc => h _ (by simp [stores, hc])
+  cases op with
+  | update p k ins c n v t => exact stProfiles_mk (profilesOk_same (update_psame ..) hm) hc
+  | remove p k c n => exact stProfiles_mk (profilesOk_same (remove_psame ..) hm) hc
+  | removeAll p k c f => exact stProfiles_mk (profilesOk_same (removeAll_psame ..) hm) hc
+  | fetch p k c n => exact stProfiles_mk (profilesOk_same (fetch_psame ..) hm) hc
+  | count p k c f => exact stProfiles_mk (profilesOk_same (select_psame ..) hm) hc
+  | scan p k c f => exact stProfiles_mk (profilesOk_same (select_psame ..) hm) hc
+  | insertKey p n m jwk alg thumbs t => exact stProfiles_mk (profilesOk_same (update_psame ..) hm) hc
+  | createProfile n => exact stProfiles_mk (createProfile_profiles hm) hc
+  | removeProfile n => exact stProfiles_mk (removeProfile_profiles (x := st.ctx) hm) hc
+  | setDefault n => exact stProfiles_mk (profilesOk_same (s := st.main) ⟨rfl, rfl⟩ hm) hc
+  | rekey m => exact stProfiles_mk (rekey_profiles hm) hc
+  | copy m =>
+    have := copyProfiles_profiles (C := C) (rng := rng) (like := like) st.main.db.profiles st.main
+      (provision C rng (st.ctx.bind [Src.metaStr "default_profile"]) m (defaultProfile st.main.db)).1
+      (provision C rng (st.ctx.bind [Src.metaStr "default_profile"]) m (defaultProfile st.main.db)).2 hm (provision_profiles _ _ _ _ _)
+    exact stProfiles_mk this.1 (fun c hc => by simp only [step, copyTo, Option.some.injEq] at hc; exact hc ▸ this.2)
+  | checkpoint => exact h
+  | reopen => exact stProfiles_mk (profilesOk_same (reopen_psame ..) hm) hc
+
+theorem run_profiles {C rng like} : ∀ (ops : List Op) (st : St), StProfiles st → StProfiles (run C rng like st ops).1
+  | [], st, h => by simpa [run] using h
+  | op :: ops, st, h => by
+    simp only [run]
+    exact run_profiles ops _ (step_profiles op h)
+
+theorem profile_keys_wrapped (C : Crypto) (rng : Nat → Nonce) (like : Bytes → Bytes → Bool) (m : Method)
+    (p : String) (ops : List Op) :
+    ∀ s ∈ stores (run C rng like (init C rng m p) ops).1, ProfilesOk s :=
+  run_profiles ops _ (stProfiles_mk (provision_profiles C rng {} m p) (fun c hc => by simp [init] at hc))
 
 end Lemmas
 end Askar.Provenance
